@@ -163,7 +163,7 @@ def run(res, tier, seed, shard, nshards):
                     seq.append("CLOSE")
                 seq_case(res, W, rng, tuple(seq), exhaustive=False)
 
-    with H.ambient((seed, shard, "C05"), res, dims=("multithread", "tls", "dispatcher", "high_fd")):
+    with H.ambient((seed, shard, "C05"), res, dims=("multithread", "tls", "dispatcher", "high_fd", "warn_error", "thread_hop", "truthy")):
         H.in_sim(scen, watchdog=3000)
     W.enableTrace(False)
 
